@@ -35,6 +35,8 @@ RULE = (
     'er loses its request or its reply; when it fails loudly it is run agai'
     'n. Crash steps include copies (before / destination half written / aft'
     'er). '
+    ' updf kind move: the rename of a staged blob into the store fails once'
+    ' with ENOSPC. Payloads go up to about 1.3 MiB. '
 )
 ASSUMPTIONS = [
     'a crash happens at a step boundary and every completed step is durable '
